@@ -56,7 +56,7 @@ $(B)/dbl/%.o: $(REPO)/lib/%.cpp
 HARN := $(patsubst harness/h_%.cpp,%,$(wildcard harness/h_*.cpp))
 $(B)/bin/%.sym: harness/h_%.cpp $(B)/libgama_sym.a $(B)/sx.o harness/*.h
 	@mkdir -p $(B)/bin
-	$(CXX) $(SYMFLAGS) -Iharness -MMD -MP -MF $(B)/bin/$*.sym.d $< $(B)/sx.o $(B)/libgama_sym.a -lz3 -lgmpxx -lgmp -lexpat -o $@
+	$(CXX) $(SYMFLAGS) -Iharness -MMD -MP -MF $(B)/bin/$*.sym.d $< $(B)/sx.o $(B)/libgama_sym.a -rdynamic -lz3 -lgmpxx -lgmp -lexpat -o $@
 $(B)/bin/%.dbl: harness/h_%.cpp $(B)/libgama_dbl.a $(B)/sx_replay.o harness/*.h
 	@mkdir -p $(B)/bin
 	$(CXX) $(DBLFLAGS) -DSX_REPLAY -Iharness -MMD -MP -MF $(B)/bin/$*.dbl.d $< $(B)/sx_replay.o $(B)/libgama_dbl.a -lgmpxx -lgmp -lexpat -o $@
